@@ -114,6 +114,17 @@ def gen_unit(rng):
                                        {"\r": ""}, {"\r": "", "\n": "\\n"}, {"\t": "", "\r": ""}, {"\r": "<CR>", "\t": ""}])
         o["headers"] = rng.random() < 0.5
         u["opts"] = o
+        ctl = [c for c in o.get("escapes", {}) if c in "\r\n\t"]
+        if ctl:
+            # the characters that the configured sequences take care of do occur in the data (top-level strings: the JSON
+            # text of a nested value never holds them raw)
+            for r in rows:
+                for k, v in list(r.items()):
+                    if isinstance(v, str) and rng.random() < 0.6:
+                        for _ in range(rng.choice((1, 1, 2))):
+                            at = rng.randrange(len(v) + 1)
+                            v = v[:at] + rng.choice(ctl) + v[at:]
+                        r[k] = v
     return u
 
 
